@@ -242,3 +242,96 @@ func c12LargePayload(c *Ctx, fam *report.Family, rounds int) {
 		}
 	}
 }
+
+// ---- the command, run as concurrent processes into one directory ----
+//
+// A release script builds all formats at once: five `nfpm package` processes, one per format, the same configuration,
+// the same output directory.  Every file must be the file the same command writes when it runs alone.
+
+func c12ConcurrentCLI(c *Ctx) {
+	fam := c.Rep.Family("concurrent-command-processes", "the built `nfpm package` run as five concurrent processes (one per format) on one configuration into one directory, 3 rounds x {explicit targets out/pkg.<ext>, directory target with conventional names; arch arm64, where the conventional deb and ipk names differ in the extension only}: every file byte-compared with the file of the same command run alone (mtime fixed); non-trivial = always")
+	if c.Repo == "" {
+		return
+	}
+	root := filepath.Join(c.Tmp, "c12cli")
+	_ = os.MkdirAll(root, 0o755)
+	bin, err := BuildNfpmBinary(c.Repo, root)
+	if err != nil {
+		c.Rep.Note("concurrent-command-processes: %v", err)
+		return
+	}
+	tool := filepath.Join(root, "tool.sh")
+	_ = os.WriteFile(tool, []byte("#!/bin/sh\necho tool\n"), 0o755)
+	y := "name: verifpkg\narch: arm64\nplatform: linux\nversion: 1.2.3\nmaintainer: Verif <verif@example.com>\ndescription: concurrent processes\nmtime: 2023-11-14T22:13:20Z\nrpm:\n  buildhost: buildhost.example\ncontents:\n- src: " + tool + "\n  dst: /usr/bin/tool\n"
+	mk := func(name string) string {
+		d := filepath.Join(root, name)
+		_ = os.MkdirAll(filepath.Join(d, "out"), 0o755)
+		_ = os.WriteFile(filepath.Join(d, "nfpm.yaml"), []byte(y), 0o644)
+		return d
+	}
+	listing := func(d string) map[string][]byte {
+		res := map[string][]byte{}
+		es, _ := os.ReadDir(filepath.Join(d, "out"))
+		for _, e := range es {
+			b, _ := os.ReadFile(filepath.Join(d, "out", e.Name()))
+			res[e.Name()] = b
+		}
+		return res
+	}
+	for _, how := range []string{"explicit-targets", "directory-target"} {
+		args := func(f string) []string {
+			if how == "explicit-targets" {
+				return []string{"-p", f, "-t", filepath.Join("out", "pkg"+cliExt[f])}
+			}
+			return []string{"-p", f, "-t", "out"}
+		}
+		seq := mk("seq-" + how)
+		for _, f := range Formats {
+			if code, out := runNfpm(bin, seq, args(f)...); code != 0 {
+				c.Rep.Note("concurrent-command-processes: sequential %s fails: %s", f, cliCause(out))
+			}
+		}
+		want := listing(seq)
+		for round := 0; round < 3; round++ {
+			d := mk(fmt.Sprintf("par-%s-%d", how, round))
+			var wg sync.WaitGroup
+			codes := make([]int, len(Formats))
+			outs := make([]string, len(Formats))
+			start := make(chan struct{})
+			for i, f := range Formats {
+				wg.Add(1)
+				go func(i int, f string) {
+					defer wg.Done()
+					<-start
+					codes[i], outs[i] = runNfpm(bin, d, args(f)...)
+				}(i, f)
+			}
+			close(start)
+			wg.Wait()
+			got := listing(d)
+			fam.Eval(fmt.Sprintf("%s|%d", how, round), true)
+			in := map[string]any{"config": y, "how": how, "round": round, "commands": "nfpm package -p <format> " + strings.Join(args("<format>")[2:], " ") + " x 5 at once"}
+			for i, f := range Formats {
+				if codes[i] != 0 {
+					c.Rep.Find(report.Finding{Property: "C12", Family: fam.Name, Shape: "concurrent-processes:command-fails:" + f,
+						What: fmt.Sprintf("`nfpm package %s` exits %d when the other four formats are packaged into the same directory at the same time: %s (alone it succeeds)", strings.Join(args(f), " "), codes[i], cliCause(outs[i])), Input: in})
+				}
+			}
+			for name, w := range want {
+				if g, ok := got[name]; !ok {
+					c.Rep.Find(report.Finding{Property: "C12", Family: fam.Name, Shape: "concurrent-processes:file-missing",
+						What: fmt.Sprintf("%s is written when the five commands run one after the other and missing when they run at once (files present: %d of %d)", name, len(got), len(want)), Input: in})
+				} else if !bytes.Equal(g, w) {
+					c.Rep.Find(report.Finding{Property: "C12", Family: fam.Name, Shape: "concurrent-processes:file-differs",
+						What: fmt.Sprintf("%s written by five concurrent commands differs from the file of the sequential run: %s", name, diffWhat(w, g)), Input: in})
+				}
+			}
+			for name := range got {
+				if _, ok := want[name]; !ok {
+					c.Rep.Find(report.Finding{Property: "C12", Family: fam.Name, Shape: "concurrent-processes:stray-file",
+						What: fmt.Sprintf("the concurrent run leaves %s in the output directory, the sequential run does not", name), Input: in})
+				}
+			}
+		}
+	}
+}
